@@ -275,10 +275,15 @@ pub closed spec fn next_id_pre(a: A) -> bool {
     exists|v: int| a.next_v <= v < a.tag.len() && a.tag[v] == 0
 }
 
-pub closed spec fn next_id_step(a: A, a2: A, r: int) -> bool {
+/// the id handed out: below the capacity, absent, at or above the position, and the least such
+pub closed spec fn next_id_result(a: A, r: int) -> bool {
     &&& a.next_v <= r < a.tag.len()
     &&& a.tag[r] == 0
     &&& forall|v: int| a.next_v <= v < r ==> a.tag[v] != 0
+}
+
+pub closed spec fn next_id_step(a: A, a2: A, r: int) -> bool {
+    &&& next_id_result(a, r)
     &&& a2.next_v == r + 1
     &&& same_graph_part(a, a2)
     &&& same_gc_part(a, a2)
